@@ -70,8 +70,18 @@ def gen_block(rng, depth, naux):
 
     body = items(rng.randint(0, 2))
     if depth > 1:
-        body.append(["blk", gen_block(rng, depth - 1, naux)])
+        inner = gen_block(rng, depth - 1, naux)
+        handled = rng.random() < 0.4
+        if d is not None and d > 0 and rng.random() < 0.4 and all(it[0] in ("s", "s0") for it in body):
+            # tie: the inner deadline expires at the same tick as this one
+            off = sum(it[1] for it in body if it[0] == "s")
+            if d - off > 0:
+                inner["d"] = d - off
+                inner["body"].append(["s", d + 2])
+        body.append(["tblk" if handled else "blk", inner])
         body += items(rng.randint(0, 2))
+        if handled:
+            body += [["s0"], ["s", rng.randint(2, 6)]]
     else:
         body += items(rng.randint(1, 2))
     return {"d": d, "body": body}
@@ -80,7 +90,7 @@ def gen_block(rng, depth, naux):
 def all_bodies(blk):
     yield blk["body"]
     for it in blk["body"]:
-        if it[0] == "blk":
+        if it[0] in ("blk", "tblk"):
             yield from all_bodies(it[1])
 
 
@@ -127,9 +137,9 @@ def strip_none(blk):
     """the same program without its task_timeout(None) levels"""
     body = []
     for it in blk["body"]:
-        if it[0] == "blk":
+        if it[0] in ("blk", "tblk"):
             inner = strip_none(it[1])
-            body.append(["blk", inner])
+            body.append([it[0], inner])
         else:
             body.append(it)
     return {"d": blk["d"], "body": body}
@@ -193,7 +203,7 @@ def neighbours(case):
         for it_i in range(len(c["children"][j]["prog"]["body"])):
             c2 = json.loads(json.dumps(c))
             it = c2["children"][j]["prog"]["body"][it_i]
-            if it[0] == "blk":
+            if it[0] in ("blk", "tblk"):
                 c2["children"][j]["prog"]["body"][it_i:it_i + 1] = it[1]["body"]
             else:
                 del c2["children"][j]["prog"]["body"][it_i]
@@ -202,7 +212,7 @@ def neighbours(case):
     def walk(blk, path):
         for i, it in enumerate(blk["body"]):
             yield path + [i]
-            if it[0] == "blk":
+            if it[0] in ("blk", "tblk"):
                 yield from walk(it[1], path + [i])
 
     for p in list(walk(c["prog"], [])):
@@ -211,7 +221,7 @@ def neighbours(case):
         for i in p[:-1]:
             blk = blk["body"][i][1]
         it = blk["body"][p[-1]]
-        if it[0] == "blk":
+        if it[0] in ("blk", "tblk"):
             # replace the block by its body
             blk["body"][p[-1]:p[-1] + 1] = it[1]["body"]
         else:
@@ -299,6 +309,16 @@ def systematic(loop):
                         yield {"loop": loop, "aux": [], "children": [
                             {"pre": pre, "prog": {"d": db, "body": [["s", work]]}}],
                             "prog": {"d": da, "body": [["spawn", 0], ["s", psleep]]}}
+    # tied nested deadlines, the inner TimeoutError (if that is what comes out) handled inside the outer block,
+    # which then goes on for much longer than its own, expired, deadline
+    for pre, do, di in [(0, 5, 5), (2, 5, 3), (4, 5, 1), (0, 3, 3), (1, 3, 2), (0, 2, 2)]:
+        head = [["s", pre]] if pre else []
+        yield {"loop": loop, "aux": [], "prog": {"d": do, "body": head + [
+            ["tblk", {"d": di, "body": [["s", 10]]}], ["s0"], ["s", 10]]}}
+        yield {"loop": loop, "aux": [], "prog": {"d": do, "body": head + [
+            ["tblk", {"d": di, "body": [["tblk", {"d": di, "body": [["s", 10]]}], ["s", 10]]}], ["s", 10]]}}
+        yield {"loop": loop, "aux": [], "prog": {"d": None, "body": [["tblk", {"d": do, "body": head + [
+            ["tblk", {"d": di, "body": [["s", 10]]}], ["s", 10]]}], ["s", 1]]}}
     # cancel storms: 1, 2, 3 consecutive refusals (3 = the interruptor's give-up path)
     for n in [1, 2, 3]:
         for d in [1, 2]:
